@@ -61,6 +61,8 @@ def site_program(site, a_val, l, f):
                 r = a % 3
             elif site == 'to_bits':
                 r = mpc.to_bits(a)[0]
+            elif site == 'to_bits_l':
+                r = mpc.to_bits(a, 2)[0]
             elif site == 'is_zero_public':
                 return await mpc.is_zero_public(a)
             elif site == 'reciprocal':
@@ -79,7 +81,7 @@ def secret_part(site, a_val, l, f):
         return a_val + (1 << l)
     if site == '_mod':
         return a_val + (1 << l) - ((1 << l) % 3)
-    if site == 'to_bits':
+    if site in ('to_bits', 'to_bits_l'):
         return a_val + (1 << l)
     if site == 'trunc':
         raw = round(a_val * 2**f) * round(1.5 * 2**f)
@@ -102,11 +104,20 @@ def mask_window(site, k, l, f, m, t, no_prss):
     if site == 'to_bits':
         B = eff_bound(1 << k, m, t, no_prss)
         return (B << l) // 8, ((d * B) << l) + (1 << l)
+    if site == 'to_bits_l':
+        B = eff_bound(1 << (l + k - 2), m, t, no_prss)
+        return (B << 2) // 8, ((d * B) << 2) + 4
     if site == 'trunc':
         lf = l + f
         B = eff_bound(1 << (k + lf - f), m, t, no_prss)
         return (B << f) // 8, ((d * B) << f) + (1 << f)
     return None
+
+
+def expected_requests(site, k, l, f):
+    """mask ranges the protocol must request (the model's per-site table), in call order"""
+    return {'sgn': [1 << k], 'lsb': [1 << (l + k - 1)], '_mod': [(1 << (k + l)) // 3], 'to_bits': [1 << k],
+            'to_bits_l': [1 << (l + k - 2)], 'trunc': [1 << (k + l + f - f)]}.get(site)
 
 
 def run_site(site, a_val, l, f, m, t, no_prss, k, seed):
@@ -131,7 +142,7 @@ def run(ctx):
     cfgs = [(3, 1, False, 30), (3, 1, True, 30), (5, 2, False, 30), (5, 2, True, 8), (4, 1, False, 8)]
     if ctx.thorough:
         cfgs += [(7, 3, False, 30), (7, 2, True, 30), (5, 1, False, 30)]
-    sites = ['sgn', 'lsb', '_mod', 'to_bits', 'trunc', 'is_zero_public', 'reciprocal']
+    sites = ['sgn', 'lsb', '_mod', 'to_bits', 'to_bits_l', 'trunc', 'is_zero_public', 'reciprocal']
     for (m, t, no_prss, k) in cfgs:
         for site in sites:
             l, f = (16, 0) if site != 'trunc' else (16, 8)
@@ -152,6 +163,13 @@ def run(ctx):
                         return
                     # (a) bounds
                     if n == 0:
+                        want = expected_requests(site, k, l, f)
+                        got = [b for _o, b in mon.mask_bounds[0]]
+                        if want is not None and got != want:
+                            ctx.violation(f'C18: site {site} requests mask ranges {[x.bit_length() - 1 for x in got]} (log2), the '
+                                          f'masking argument needs {[x.bit_length() - 1 for x in want]}: the opened value is not '
+                                          f'statistically hidden to 2^-k', rep)
+                            return
                         for origin, bound in mon.mask_bounds[0]:
                             eff = eff_bound(bound, m, t, no_prss)
                             e = bound.bit_length() - 1
@@ -167,7 +185,8 @@ def run(ctx):
                                 ctx.violation(f'C18: {origin} requested mask range {bound} but no PRF with the rounded range '
                                               f'{eff} was used (PRF bounds {sorted(used)[:6]})', rep)
                                 return
-                    ops = [o for o in mon.opened[0] if o[0] == site or (site == 'trunc' and o[0] == 'trunc')]
+                    oname = 'to_bits' if site == 'to_bits_l' else site
+                    ops = [o for o in mon.opened[0] if o[0] == oname]
                     if not ops:
                         ctx.violation(f'C18: no value opened by {site}', rep)
                         return
